@@ -133,15 +133,15 @@ impl OsLeg {
             "open" => {
                 let mut o = fs::OpenOptions::new();
                 o.read(op.opt.r).write(op.opt.w).truncate(op.opt.t).create(op.opt.c).create_new(op.opt.cn);
-                if op.opt.app {
-                    o.custom_flags(libc::O_APPEND);
-                }
+                o.mode(op.opt.mode).custom_flags(op.opt.custom_flags());
                 match o.open(&p) {
                     Ok(f) => {
+                        let perm = fd_perm(f.as_raw_fd());
+                        // an O_TMPFILE inode has no name: read it back through the descriptor's magic link
+                        self.fpath = Some(if op.opt.tmp { format!("/proc/self/fd/{}", f.as_raw_fd()).into() } else { p.clone() });
                         self.file = Some(f);
-                        self.fpath = Some(p.clone());
                         self.cur = 0;
-                        Obs::ok(0)
+                        Obs::ok(perm)
                     }
                     Err(e) => Obs::err(&e),
                 }
